@@ -20,14 +20,27 @@
        values, so the next save sends the same arguments                 (C10_reject_keeps_pending)
      - the hypothesis `unsaved_wf` of the above holds in every state any history reaches from
        a bootstrapped configuration                                      (C10_pending_wf_reachable)
-   The remaining link -- the pending set IS the set of options changed since the last
-   acknowledged save, with their validated values, and reads after an acknowledgement return
-   the saved values -- is C10_oracle_holds_partial (below, when present) and is otherwise decided
-   by the oracle on the correspondence run. *)
+     - the model's per-type validate / parse (selected through the regenerated config_types
+       table) agree with the Spec's typed semantics on every declared type and every value of
+       the envelope                                  (C10_validate_agrees, C10_parse_agrees)
+     - THE FULL STATEMENT outside the three finding classes, from any model state that is
+       synchronised with Tor's store (relation Rel of Proofs/CfgSim.v: parsers = the table, every
+       option's view = Tor's value parsed by type, nothing pending): the Spec oracle accepts the
+       model's whole trace -- the pending set IS the set of options changed since the last
+       acknowledged save with their validated values, the one SETCONF is exactly that set, after
+       an acknowledgement nothing is pending and every read returns the saved value, after a
+       rejection everything stays pending                        (C10_oracle_holds_partial)
+       [what keeps it `_partial`: the hypothesis c10_known i = false, i.e. exactly the complement
+        of the three finding classes]
+     - the same FROM THE INPUT ALONE: bootstrap (the model of _do_setup) establishes that
+       synchronised state for every table / store / defaults of the envelope outside the two
+       bootstrap finding classes of C11 (benign_boot), so the whole model_run -- attach, then
+       the history -- is accepted by the oracle             (C10_holds_outside_findings_partial) *)
 From Coq Require Import String.
 From Coq Require Import List Bool Ascii Arith NArith ZArith.
 From TxVerif Require Import Lib.Bytes Lib.CfgLib Spec.CfgTypes Spec.TorStore Spec.CfgOracle Spec.C10
-  Model.Config Proofs.CfgWire Proofs.C10Proofs.
+  Model.ConfigKinds Model.Config Proofs.CfgWire Proofs.C10Proofs Proofs.CfgAgree Proofs.CfgSim Proofs.CfgSimRun
+  Proofs.CfgBoot Proofs.CfgTop.
 Import ListNotations.
 
 Theorem C10_silent_until_save : forall names ops st tr,
@@ -73,6 +86,31 @@ Proof.
   unfold unsaved_wf. rewrite (bootstrap_unsaved i st0 Hb). constructor.
 Qed.
 Print Assumptions C10_pending_wf_reachable.
+
+Theorem C10_validate_agrees : forall k v,
+  assign_ok k v = true -> pending_agrees (validate (vk_of k) v) (spec_validate k v).
+Proof. exact validate_agrees_all. Qed.
+Print Assumptions C10_validate_agrees.
+
+Theorem C10_parse_agrees : forall k a, validated k a ->
+  exists a', parse (pk_of k) (PAtom a) = Ok (PAtom a') /\ parse_scalar k (atom_text a) = Some a'.
+Proof. exact parse_agrees. Qed.
+Print Assumptions C10_parse_agrees.
+
+Theorem C10_oracle_holds_partial : forall i st tr,
+  c10_scope i = true -> c10_known i = false ->
+  Rel (options (i_table i)) (i_defaults i) st (mon0 i) ->
+  m_run (option_names i) st (i_ops i) = Some tr ->
+  oracle i tr = true.
+Proof. exact oracle_from_synced. Qed.
+Print Assumptions C10_oracle_holds_partial.
+
+Theorem C10_holds_outside_findings_partial : forall i b snap tr,
+  c10_scope i = true -> c10_known i = false -> benign_boot i = true ->
+  model_run i = Some (b, snap, tr) ->
+  b = true /\ boot_oracle i b snap = true /\ oracle i tr = true.
+Proof. exact c10_oracle_holds. Qed.
+Print Assumptions C10_holds_outside_findings_partial.
 
 (* ---- the open findings: the full statement fails on a concrete input of each class ---- *)
 Theorem C10_emptied_list_refuted :
